@@ -152,14 +152,20 @@ def main_wrapper(check_fn, pid: str, argv: list[str]) -> int:
         else:
             i += 1
     seed = int(os.environ.get('VERIF_SEED', '20260923'))
-    run = Run(pid, tier, seed)
-    try:
-        check_fn(run, replay)
-        return run.finish()
-    except MachineryError as ex:
-        print(f'MACHINERY-FAILURE property={pid}: {ex}', file=sys.stderr)
-        return 2
-    except Exception:  # noqa: BLE001
-        traceback.print_exc()
-        print(f'MACHINERY-FAILURE property={pid}: unexpected exception in harness', file=sys.stderr)
-        return 2
+    # a machinery failure (never a verdict) is retried once with fresh state: the harnesses drive real threads with
+    # watchdog timeouts, and a heavily loaded machine can trip one
+    for attempt in (1, 2):
+        run = Run(pid, tier, seed)
+        try:
+            check_fn(run, replay)
+            return run.finish()
+        except MachineryError as ex:
+            print(f'MACHINERY-FAILURE property={pid}: {ex}' + (' (retrying once)' if attempt == 1 else ''),
+                  file=sys.stderr)
+        except Exception:  # noqa: BLE001
+            traceback.print_exc()
+            print(f'MACHINERY-FAILURE property={pid}: unexpected exception in harness'
+                  + (' (retrying once)' if attempt == 1 else ''), file=sys.stderr)
+        import shutil
+        shutil.rmtree(run.tmp, ignore_errors=True)
+    return 2
